@@ -8,13 +8,14 @@ R14.a  every panic-capable site of a fixed set of kinds that is reachable
 R14.b  every compile-time CLVM evaluation started by the compiler is
        step-bounded."""
 import json
+import re
 import os
 from collections import defaultdict
 
 import runner
 from defs import Defs, const_ints
 from flow import Flow
-from lengthdom import LengthDomain, Summaries
+from lengthdom import LengthDomain, Summaries, filter_entry_facts
 from mir import callee_of, op_const, op_int, op_local, op_place, rv_operands
 from report import Report
 
@@ -65,6 +66,7 @@ def load_table():
 
 
 KEY_BY_NAME = bool(os.environ.get("VERIF_C14_KEYS_BY_NAME"))     # migration aid only
+KEYS_V2 = bool(os.environ.get("VERIF_C14_KEYS_V2"))               # migration aid only
 
 
 def describe_place_key(f, key):
@@ -82,6 +84,24 @@ def describe_place_key(f, key):
                 ty = f.local_ty(l).replace("&mut ", "").replace("&", "")
                 n = "<" + ty.split("<")[0].rsplit("::", 1)[-1] + ">"
         return n + "".join("." + p for p in path)
+    if not KEYS_V2:
+        # v3: only the trailing projection identifies the access: no base local, no base type, no iteration plumbing
+        # (`.@Some.0` of Iterator::next, the capture index of a closure environment) - a `for` loop and the equivalent
+        # iterator closure index the same thing
+        segs = list(path)
+        if "{closure@" in f.local_ty(l) and segs and segs[0].isdigit():
+            segs = segs[1:]
+        out = []
+        i = 0
+        while i < len(segs):
+            if segs[i] in ("@Some", "@Ok") and i + 1 < len(segs) and segs[i + 1] == "0":
+                i += 2
+                continue
+            out.append(segs[i])
+            i += 1
+        while out and out[0].isdigit():
+            out = out[1:]          # leading tuple positions of a pattern-bound element
+        return "".join("." + p for p in out)
     ty = f.local_ty(l).replace("&mut ", "").replace("&", "").strip()
     while ty.startswith("std::rc::Rc<") or ty.startswith("std::boxed::Box<"):
         ty = ty[ty.index("<") + 1:-1]
@@ -115,7 +135,8 @@ class FnCtx:
     @property
     def ld(self):
         if self._ld is None:
-            self._ld = LengthDomain(self.f, FnCtx.prog, FnCtx.summ)
+            entry = filter_entry_facts(FnCtx.prog, self.f, FnCtx.summ) if self.f.kind == "Closure" and FnCtx.prog is not None else None
+            self._ld = LengthDomain(self.f, FnCtx.prog, FnCtx.summ, entry=entry)
         return self._ld
 
     @property
@@ -324,13 +345,27 @@ def run(tier="quick", replay=None):
     ordinal = defaultdict(int)
     excluded = defaultdict(int)
 
+    auto_ord = defaultdict(int)
+
     def site_key(f, kind, detail):
-        base = "R14.a|%s|%s|%s" % (f.path, kind, detail)
-        ordinal[base] += 1
-        return base if ordinal[base] == 1 else "%s#%d" % (base, ordinal[base])
+        if KEYS_V2:
+            fpath = re.sub(r"\{closure#\d+\}", "{closure}", f.path)
+            base = "R14.a|%s|%s|%s" % (fpath, kind, detail)
+            ordinal[base] += 1
+            return base if ordinal[base] == 1 else "%s#%d" % (base, ordinal[base])
+        # v3: keyed by the enclosing named function (closures folded in); the ordinal is assigned in settle() and counts
+        # only sites that need a table line, so adding or removing a provably guarded access shifts nothing
+        return "R14.a|%s|%s|%s" % (f.root, kind, detail)
 
     def settle(f, key, site, kind, auto_how, msg):
         inv[kind] += 1
+        if not KEYS_V2:
+            if auto_how:
+                auto_ord[key] += 1
+                key = "%s|auto#%d" % (key, auto_ord[key])
+            else:
+                ordinal[key] += 1
+                key = key if ordinal[key] == 1 else "%s#%d" % (key, ordinal[key])
         if auto_how:
             dis[auto_how.split(":")[0]] += 1
             R.ob("R14.a", key, site, "auto: " + auto_how, fn=f.path)
@@ -352,7 +387,9 @@ def run(tier="quick", replay=None):
         else:
             R.viol("R14.a", key, site, msg, fn=f.path)
 
-    for p in sorted(reach):
+    def natural(pth):
+        return [int(x) if x.isdigit() else x for x in re.split(r"(\d+)", pth)]
+    for p in sorted(reach, key=natural):
         f = prog.fns[p]
         ctx = FnCtx(f)
         for bb, blk in enumerate(f.blocks):
@@ -371,6 +408,7 @@ def run(tier="quick", replay=None):
                         if lm and ckey is not None and lm[0] == ckey:
                             desc = describe_place_key(f, ckey)
                             key = site_key(f, "lastindex", "%s[len-%d]" % (desc, lm[1]))
+                            desc = describe_place_name(f, ckey)
                             m = ctx.ld.min_len_at_term(bb, ckey)
                             how = "length: min_len(%s)=%d >= %d" % (desc, m, lm[1]) if m >= lm[1] else None
                             settle(f, key, site, "lastindex", how,
@@ -386,6 +424,7 @@ def run(tier="quick", replay=None):
                     lkey = ctx.ld.len_source(op_local(t["len"])) if op_local(t["len"]) is not None else None
                     desc = describe_place_key(f, lkey) if lkey else "array"
                     key = site_key(f, "bounds", "%s[%d]" % (desc, k))
+                    desc = describe_place_name(f, lkey) if lkey else "array"
                     how = None
                     if n_const is not None and n_const > k:
                         how = "length: array of %d elements, index %d" % (n_const, k)
@@ -440,6 +479,7 @@ def run(tier="quick", replay=None):
                         lm = len_minus_const(ctx, op_local(t["args"][1]))
                         if lm and rkey is not None and lm[0] == rkey:
                             key = site_key(f, "lastindex", "%s[len-%d]" % (desc, lm[1]))
+                            desc = describe_place_name(f, rkey)
                             m = ctx.ld.min_len_at_term(bb, rkey)
                             how = "length: min_len(%s)=%d >= %d" % (desc, m, lm[1]) if m >= lm[1] else None
                             settle(f, key, site, "lastindex", how,
@@ -449,6 +489,7 @@ def run(tier="quick", replay=None):
                         excluded["variable-index Index"] += 1
                         continue
                     key = site_key(f, "index", "%s[%d]" % (desc, k))
+                    desc = describe_place_name(f, rkey)
                     m = ctx.ld.min_len_at_term(bb, rkey) if rkey else 0
                     how = "length: min_len(%s)=%d > %d" % (desc, m, k) if m > k else None
                     settle(f, key, site, "index", how,
@@ -469,6 +510,7 @@ def run(tier="quick", replay=None):
                         excluded["variable/str range slicing"] += 1
                         continue
                     key = site_key(f, "slice", "%s[%d..]" % (desc, start))
+                    desc = describe_place_name(f, rkey)
                     m = ctx.ld.min_len_at_term(bb, rkey) if rkey else 0
                     how = "length: min_len(%s)=%d >= %d" % (desc, m, start) if m >= start else None
                     if start == 0:
@@ -530,6 +572,7 @@ def run(tier="quick", replay=None):
                         rkey = (rk[0], rk[1] + tuple(sm[2])) if rk else None
                         desc = describe_place_key(f, rkey)
                         key = site_key(f, "accessor", "%s.%s(%d)" % (desc, name, k))
+                        desc = describe_place_name(f, rkey)
                         m = ctx.ld.min_len_at_term(bb, rkey) if rkey else 0
                         how = "length: min_len(%s)=%d > %d (indexing accessor %s)" % (desc, m, k, c.rsplit("::", 2)[-2] + "::" + name) if m > k else None
                         settle(f, key, site, "accessor", how,
@@ -546,6 +589,7 @@ def run(tier="quick", replay=None):
                 desc = describe_place_key(f, rkey)
                 need = k if name in ("insert", "split_off", "split_at", "split_at_mut") else k + 1
                 key = site_key(f, "vecop", "%s.%s(%d)" % (desc, name, k))
+                desc = describe_place_name(f, rkey)
                 m = ctx.ld.min_len_at_term(bb, rkey) if rkey else 0
                 how = "length: min_len(%s)=%d >= %d" % (desc, m, need) if m >= need else None
                 settle(f, key, site, "vecop", how, "%s calls %s(%d) on %s without a length proof" % (f.path, name, k, desc))
